@@ -110,7 +110,9 @@ Inductive tpc :=
 | TReadBase (m : tmode)           (* "wsq.take.readbase"  : b = q->base                     *)
 | TWriteBase (m : tmode) (b : Z)  (* "wsq.take.writebase" : q->base = b + 1 ; rwbarrier     *)
 | TReadTop (m : tmode) (b : Z)    (* "wsq.take.readtop"   : top = q->top ; b < top ?        *)
-| TSlot (m : tmode) (b : Z)       (* "wsq.take.slot"      : ret = q->ptr[b] (+ decision)    *)
+| TSlot (m : tmode) (b : Z)       (* "wsq.take.slot"      : ret = q->ptr[b]                 *)
+| TDecide (d : bool) (b : Z)      (* wsapi take: the decision callback runs (lock held), then the
+                                     effect of its answer: invalidate + return / roll back      *)
 | TRollback (m : tmode) (b : Z)   (* "wsq.take.rollback"  : q->base = b                     *)
 | TUnlock (r : Z)                 (* "spin.unlock"                                          *)
 | TPassTry (x : Z)                (* "spin.trylock"                                         *)
@@ -215,10 +217,13 @@ Definition thief_tick (v : mem) (pc : tpc) : res tpc :=
       let r := znth (ptr v) b in
       match m with
       | MTake => Some ([], TUnlock r, GReturned r)
-      | MW true => Some (invalidate v, TUnlock r, GReturned r)
-      | MW false => Some ([], TRollback m b, GNone)
+      | MW d => Some ([], TDecide d b, GNone)
       | MP => Some ([WSeq (wseq v + 1); WCptr r; WSeq (wseq v + 2)], TRollback m b, GNone)
       end
+  | TDecide d b =>
+      let r := znth (ptr v) b in
+      if d then Some (invalidate v, TUnlock r, GReturned r)
+      else Some ([], TRollback (MW false) b, GNone)
   | TRollback m b => Some ([WBase b], match m with MP => TUnlockP | _ => TUnlock 0 end, GNone)
   | TUnlock r => Some ([WLock 0], TDone r, GNone)
   | TPassTry x =>
@@ -289,6 +294,7 @@ Definition tlabel (pc : tpc) : string * Z :=
   | TReadTop MTake b => ("wsq.take.readtop"%string, b)
   | TSlot MTake b => ("wsq.take.slot"%string, b)
   | TRollback MTake b => ("wsq.take.rollback"%string, b)
+  | TDecide _ _ => ("wsapi.take.decide"%string, 0)    (* POINT issued by the harness' callback *)
   | TReadBase _ | TWriteBase _ _ | TReadTop _ _
   | TSlot _ _ | TRollback _ _ | TPeekCheck | TPeekSeq => (""%string, 0)
   | TPassCheck x => ("wsq.pass.check"%string, x)
@@ -389,7 +395,11 @@ Definition init (s : state) : Prop :=
 Definition label (s : state) (p : nat) : string * Z :=
   match p with
   | O => olabel (own s)
-  | S i => match nth_error (thv s) i with Some pc => tlabel pc | None => (""%string, 0) end
+  | S i => match nth_error (thv s) i with
+           | Some (TDecide d b) => (fst (tlabel (TDecide d b)), znth (ptr (mm s)) b)   (* val = candidate *)
+           | Some pc => tlabel pc
+           | None => (""%string, 0)
+           end
   end.
 
 (** observable words: top, base, lock, wc.seq, wc.ptr, then all slots *)
